@@ -268,6 +268,52 @@ let c05 s b =
         let st = eval_tape sem rt inputs (fun _ -> sem.s_dflt) (List.map (fun _ -> sem.s_dflt) roots) in
         List.iter (fun g -> Printf.bprintf b " %d %d %d %d" (int_of_f32 g.gv) (int_of_f32 g.gx) (int_of_f32 g.gy) (int_of_f32 g.gz)) st.m_out) pts
 
+(* ---- C12 / C13: the Context model ------------------------------------------------- *)
+let buf_arena b (c : f32 cnode list) =
+  Printf.bprintf b "%d" (List.length c);
+  List.iter (function
+    | NInput v -> Printf.bprintf b " 0 %d" (int_of_nat v)
+    | NConst f -> Printf.bprintf b " 1 %d" (int_of_f32 f)
+    | NUnary (u, a) -> Printf.bprintf b " 2 %d %d" (index_of uops u) (int_of_nat a)
+    | NBinary (bo, l, r) -> Printf.bprintf b " 3 %d %d %d" (index_of bops bo) (int_of_nat l) (int_of_nat r)) c
+
+let c12 s b =
+  let n = next s in
+  let orc = libm_oracle in
+  let ctx = ref [] in
+  Printf.bprintf b "ret";
+  for _ = 1 to n do
+    let r =
+      match next s with
+      | 0 -> let v = next_nat s in var !ctx v
+      | 1 -> let c = next_f32 s in constant !ctx c
+      | 2 -> let u = uops.(next s) in let a = next_nat s in op_unary orc !ctx a u
+      | _ -> let bo = bops.(next s) in let a = next_nat s in let c = next_nat s in build_bin orc !ctx bo a c in
+    match r with
+    | Ok (c', node) -> ctx := c'; Printf.bprintf b " %d" (int_of_nat node)
+    | Err _ -> Printf.bprintf b " bad"
+  done;
+  Printf.bprintf b " | arena "; buf_arena b !ctx
+
+let parse_tree s : tnode list =
+  let n = next s in
+  times n (fun () ->
+    match next s with
+    | 0 -> TInput (next_nat s)
+    | 1 -> TConst (next_f32 s)
+    | 2 -> let u = uops.(next s) in let a = next_nat s in TUn (u, a)
+    | 3 -> let bo = bops.(next s) in let l = next_nat s in let r = next_nat s in TBin (bo, l, r)
+    | 4 -> let t = next_nat s in let x = next_nat s in let y = next_nat s in let z = next_nat s in TRemapAxes (t, x, y, z)
+    | 5 -> let t = next_nat s in let m = times 16 (fun () -> next_f32 s) in TRemapAffine (t, m)
+    | k -> failwith (Printf.sprintf "bad tree tag %d" k))
+
+let c13 s b =
+  let t = parse_tree s in
+  let root = next_nat s in
+  match import libm_oracle t root [] with
+  | Err c -> Printf.bprintf b "node err %d" (int_of_nat c)
+  | Ok (ctx, node) -> Printf.bprintf b "node %d | arena " (int_of_nat node); buf_arena b ctx
+
 (* ---- C11: interpreter interval evaluation: value or panic ---------------------- *)
 let c11 s b =
   let arena = parse_arena s in
@@ -357,6 +403,8 @@ let dispatch cmd s b =
   | "c03" -> c03 s b
   | "c11" -> c11 s b
   | "c05" -> c05 s b
+  | "c12" -> c12 s b
+  | "c13" -> c13 s b
   | "bcval" -> cmd_bcval s b
   | "c20" -> c20 s b
   | "c04" -> c04 s b
